@@ -18,7 +18,7 @@ CONSTANTS
     KsSplit,        \* keys 1..KsSplit live in one keyspace, the larger ones in a second keyspace
                     \* (under the same user keys); KsSplit >= every key: a single keyspace
     MaxOpsPerTx,
-    Methods,        \* subset of {"get", "size_of", "scan", "range_lo", "insert", "remove", "rmw"}
+    Methods,        \* subset of {"get", "size_of", "scan", "range_lo", "insert", "remove", "rmw", "helper"}
     SingleWriter,   \* TRUE: SingleWriterTxDatabase (write_tx holds a process-wide mutex)
     EnGC,           \* tracker gc + pruning of the committed table
     FixSizeOf,      \* model of repair: size_of records its read
@@ -26,7 +26,7 @@ CONSTANTS
 
 VARIABLES
     seqno, visible,
-    ents,       \* committed entries: set of [k, s, v]  (v = 0: tombstone)
+    ents,       \* committed entries: set of [k, s, v, h]  (v = 0: tombstone; h: written by a single-operation helper)
     tx,         \* [Txs -> transaction record]
     table,      \* oracle table of committed transactions: set of [ts, cks]
     trk,        \* snapshot tracker: [cnt : instant -> count (as set of pairs), wm]
@@ -128,17 +128,48 @@ Write(t, k, del) ==
 
 \* fetch_update / update_fetch / take: read + conditional write + read footprint + conflict key
 \* (modelled update function: present -> new value, absent -> new value)
-Rmw(t, k) ==
+Rmw(t, k, del) ==
     /\ tx[t].st = "open" /\ tx[t].nops < MaxOpsPerTx /\ "rmw" \in Methods
     /\ nval' = nval + 1
     /\ LET r == tx[t]
            val == [x \in Keys |-> TxVal(r, x)]
-       IN /\ last' = [a |-> "Rmw", t |-> t, k |-> k, prev |-> val[k], v |-> nval + 1]
+           nv == IF del THEN 0 ELSE nval + 1      \* take(): the closure answers None
+           \* removing a key that is absent writes nothing (no tombstone)
+           writes == ~(del /\ val[k] = 0)
+       IN /\ last' = [a |-> "Rmw", t |-> t, k |-> k, prev |-> val[k], v |-> nv]
           /\ tx' = [tx EXCEPT ![t].obs = Append(@, [m |-> "rmw", arg |-> k, res |-> val[k], w |-> r.w]),
                            ![t].reads = @ \cup Footprint("rmw", k),
-                           ![t].w[k] = [set |-> TRUE, v |-> nval + 1],
-                           ![t].cks = @ \cup {k}, ![t].nw = @ + 1, ![t].nops = @ + 1]
+                           ![t].w[k] = IF writes THEN [set |-> TRUE, v |-> nv] ELSE @,
+                           \* (the optimistic wrapper marks the conflict key whether or not something was written)
+                           ![t].cks = @ \cup {k},
+                           ![t].nw = IF writes THEN @ + 1 ELSE @, ![t].nops = @ + 1]
     /\ UNCHANGED <<seqno, visible, ents, table, trk, writer, commits, allc, bad>>
+
+\* the single-operation helpers of the transactional keyspaces (insert / remove / take /
+\* fetch_update / update_fetch on OptimisticTxKeyspace and SingleWriterTxKeyspace): a write
+\* transaction of one operation, begun and committed in one go (the optimistic read-modify-write
+\* helpers retry on conflict, so they always end committed); other transactions see them as one
+\* more committed transaction with conflict key k
+Helper(k, kind) ==
+    /\ "helper" \in Methods
+    /\ Cardinality({e \in ents : e.h}) < 2 /\ nval < 2 * MaxOpsPerTx + 2   \* (bounds for the exhaustive instances)
+    /\ (SingleWriter => writer = 0)
+    /\ nval' = nval + 1
+    /\ LET s == seqno
+           prev == Latest(k)
+           nv == IF kind \in {"remove", "take"} THEN 0 ELSE nval + 1
+           vis2 == IF s + 1 > visible THEN s + 1 ELSE visible
+           \* take() of an absent key: a transaction without writes, nothing is committed
+           writes == ~(kind = "take" /\ prev = 0)
+       IN /\ ents' = IF writes THEN ents \cup {[k |-> k, s |-> s, v |-> nv, h |-> TRUE]} ELSE ents
+          /\ seqno' = IF writes THEN s + 1 ELSE seqno
+          /\ visible' = IF writes THEN vis2 ELSE visible
+          /\ table' = IF SingleWriter \/ ~writes THEN table
+                       ELSE {c \in table : c.ts # vis2} \cup {[ts |-> vis2, cks |-> {k}]}
+          /\ allc' = IF SingleWriter \/ ~writes THEN allc ELSE allc \cup {[ts |-> vis2, cks |-> {k}]}
+          /\ last' = [a |-> "Helper", kind |-> kind, k |-> k, prev |-> prev, v |-> nv,
+                      store |-> [x \in Keys |-> IF x = k THEN nv ELSE Latest(x)]]
+    /\ UNCHANGED <<tx, trk, writer, commits, bad>>
 
 \* is the transaction serializable at its commit point?  every observation re-evaluated on
 \* (committed state now) + (own writes before that read) must give the recorded result
@@ -171,7 +202,7 @@ Commit(t) ==
            t1 == IF SingleWriter \/ FixDoubleClose THEN trk ELSE TrkClose(trk, r.inst)   \* close_raw
            tbl1 == IF EnGC THEN {c \in table : c.ts > t1.wm} ELSE table
            s == seqno
-           newents == {[k |-> k, s |-> s, v |-> r.w[k].v] : k \in {x \in Keys : r.w[x].set}}
+           newents == {[k |-> k, s |-> s, v |-> r.w[k].v, h |-> FALSE] : k \in {x \in Keys : r.w[x].set}}
            vis2 == IF s + 1 > visible THEN s + 1 ELSE visible
        IN
        IF conf
@@ -225,7 +256,8 @@ Next ==
     \/ \E t \in Txs : Begin(t) \/ CommitReadOnly(t) \/ Commit(t) \/ Rollback(t)
     \/ \E t \in Txs, m \in Methods, a \in Keys : Read(t, m, a)
     \/ \E t \in Txs, k \in Keys, d \in BOOLEAN : Write(t, k, d)
-    \/ \E t \in Txs, k \in Keys : Rmw(t, k)
+    \/ \E t \in Txs, k \in Keys, d \in BOOLEAN : Rmw(t, k, d)
+    \/ \E k \in Keys, kind \in {"insert", "remove", "take", "rmw"} : Helper(k, kind)
     \/ GC \/ Upgrade
 
 Spec == Init /\ [][Next]_vars
@@ -236,7 +268,7 @@ Spec == Init /\ [][Next]_vars
 Serializable == bad = {}
 \* a refused or rolled back transaction leaves no effect
 NoEffectUnlessCommitted ==
-    \A e \in ents : \E t \in Txs : tx[t].st = "committed" /\ tx[t].w[e.k].set /\ tx[t].w[e.k].v = e.v
+    \A e \in ents : e.h \/ \E t \in Txs : tx[t].st = "committed" /\ tx[t].w[e.k].set /\ tx[t].w[e.k].v = e.v
 \* the pruning never removes an entry a live transaction still has to validate against
 PruneKeepsNeeded ==
     \A t \in Txs : tx[t].st = "open" =>
